@@ -1,11 +1,12 @@
 /-
 C07 driver — one request line = one record and one split of it across `emit` calls.
 
-  C07 <field>* / <group size>* @<base>
+  C07 <field>* / <group size>* @<base> [^<i>,<j>]
      field ::= i:<w>:<s|u>:<b|l>:<g|f|c>:<int>      integer, width, signedness, byte order, word form
              | r:<w>:<b|l>:<g|f|c>:<16 hex>          real (f64 bit pattern), width 32|64 (others: error paths)
              | b:<bits> | s:<hex utf8> | y:<dec>,<dec>… | z:<hex bytes>
      <base> = start() of the packed bit-string when it is opened for parsing
+     ^i,j   = pieces [i, j) are wrapped into a nested vector before `>bitstr`
 
 Answer:  P <st> [b<bits>] | V <st> <cells…> R<remain> @<pos> | O <st> [<output cell> <output-length cell>]
   P: pieces of all fields (one interpreter, left to right) collected in a vector, `>bitstr`
@@ -54,10 +55,15 @@ def st : Outcome α → String
 
 def cellsStr (ds : List Cell) : String := " ".intercalate ((ds.map canonNaN).reverse.map cellStr)
 
-def packPart (fs : List Field) : CurState × Outcome (List Bool) :=
+/-- wrap pieces `[i, j)` into a nested vector (what `[ a [ b c ] d ]` builds) -/
+def nest (cs : List Cell) : Option (Nat × Nat) → List Cell
+  | some (i, j) => cs.take i ++ [.vec (CellList.ofList ((cs.take j).drop i))] ++ cs.drop j
+  | none => cs
+
+def packPart (fs : List Field) (nz : Option (Nat × Nat)) : CurState × Outcome (List Bool) :=
   match pieces CurState.boot fs with
   | (s1, .ok cs) =>
-    match run s1 [.push (.vec (CellList.ofList cs)), .toBitstr] with
+    match run s1 [.push (.vec (CellList.ofList (nest cs nz))), .toBitstr] with
     | (s2, .ok ()) =>
       match s2.ds with
       | .bitstr b :: r => ({ s2 with ds := r }, .ok b)
@@ -70,11 +76,15 @@ def packPart (fs : List Field) : CurState × Outcome (List Bool) :=
 def handle (args : List String) : String :=
   let (ftoks, rest) := args.span (· ≠ "/")
   let rest := rest.drop 1
-  let sizes := (rest.filter (fun t => !t.startsWith "@")).mapM String.toNat?
+  let sizes := (rest.filter (fun t => !t.startsWith "@" && !t.startsWith "^")).mapM String.toNat?
+  let nz : Option (Nat × Nat) := (rest.filter (·.startsWith "^")).head?.bind fun t =>
+    match ((t.drop 1).toString.splitOn ",").map String.toNat? with
+    | [some i, some j] => some (i, j)
+    | _ => none
   let base := ((rest.filter (·.startsWith "@")).head?.bind fun t => (t.drop 1).toString.toNat?).getD 0
   match ftoks.mapM parseField, sizes with
   | some fs, some sizes =>
-    let (s1, p) := packPart fs
+    let (s1, p) := packPart fs nz
     let pStr := match p with
       | .ok b => "P ok " ++ bitsStr b
       | o => "P " ++ st o
